@@ -73,6 +73,17 @@ pub fn interesting_dates(e: &OpeningHoursExpression, years: &[i32], ctx: &MCtx) 
                     }
                 }
                 ds::MonthdayRange::Date { start, end } => {
+                    // the single interval of a range with a dated start: both ends, a day
+                    // inside, the days around
+                    if start != end {
+                        if let Some((s0, e0)) = model::dated_interval(start, end) {
+                            push(&mut pool, Some(s0));
+                            push(&mut pool, Some(e0));
+                            push(&mut pool, s0.checked_add_signed(Duration::days((e0 - s0).num_days() / 2)));
+                            push(&mut pool, e0.succ_opt());
+                            push(&mut pool, s0.pred_opt());
+                        }
+                    }
                     for side in [start, end] {
                         let ys: Vec<i32> = model::date_year(&side.0).map(|y| vec![y]).unwrap_or_else(|| years.to_vec());
                         for y in ys {
@@ -133,6 +144,7 @@ pub fn interesting_dates(e: &OpeningHoursExpression, years: &[i32], ctx: &MCtx) 
 
 const STRUCTURAL: [(u32, u32); 10] = [(2, 28), (2, 29), (3, 1), (12, 28), (12, 31), (1, 1), (1, 4), (12, 29), (6, 30), (1, 3)];
 
+#[derive(Clone)]
 pub struct DateGen {
     pub pool: Vec<NaiveDate>,
     pub base_year: i32,
